@@ -11,13 +11,14 @@ Section AllocHist.
   Variable rank : elt -> Z.
   Variable dflt : elt.
   Variables L I : nat.
+  Variable MH : nat.
 
   Lemma erase_astep : forall (t : atree elt) (s : ast) (x : op elt),
-    erase_tree (fst (astep elt rank dflt L I (t, s) x)) = step rank dflt L I (erase_tree t) x.
+    erase_tree (fst (astep elt rank dflt L I MH (t, s) x)) = step rank dflt L I MH (erase_tree t) x.
   Proof.
     intros t s x. destruct x as [o e|e|e|d]; cbn [astep step].
-    - pose proof (erase_insert elt rank dflt L I (with_oracle o s) t e) as H.
-      destruct (ainsert_op rank dflt L I (with_oracle o s) t e) as [[[st t'] s'] lg].
+    - pose proof (erase_insert elt rank dflt L I MH (with_oracle o s) t e) as H.
+      destruct (ainsert_op rank dflt L I MH (with_oracle o s) t e) as [[[st t'] s'] lg].
       cbn [with_oracle oracle] in H. rewrite H. reflexivity.
     - pose proof (erase_remove elt rank dflt L I s t e) as H.
       destruct (aremove_op rank dflt L I s t e) as [[[[st out] t'] s'] lg].
@@ -27,19 +28,19 @@ Section AllocHist.
   Qed.
 
   Lemma erase_arun : forall ops (t : atree elt) (s : ast),
-    erase_tree (fst (fold_left (astep elt rank dflt L I) ops (t, s))) =
-    fold_left (step rank dflt L I) ops (erase_tree t).
+    erase_tree (fst (fold_left (astep elt rank dflt L I MH) ops (t, s))) =
+    fold_left (step rank dflt L I MH) ops (erase_tree t).
   Proof.
     induction ops as [|x ops IH]; intros t s; cbn [fold_left]; [reflexivity|].
     pose proof (erase_astep t s x) as H.
-    destruct (astep elt rank dflt L I (t, s) x) as [t1 s1]. cbn [fst] in H.
+    destruct (astep elt rank dflt L I MH (t, s) x) as [t1 s1]. cbn [fst] in H.
     rewrite IH, H. reflexivity.
   Qed.
 
   (* from zix_btree_new on: the erased instrumented history is [run ops] *)
   Theorem erase_history : forall o0 ops,
     match anew_op (elt := elt) (ast0 o0) with
-    | (Some t, s) => erase_tree (fst (fold_left (astep elt rank dflt L I) ops (t, s))) = run rank dflt L I ops
+    | (Some t, s) => erase_tree (fst (fold_left (astep elt rank dflt L I MH) ops (t, s))) = run rank dflt L I MH ops
     | (None, _) => True
     end.
   Proof.
